@@ -64,8 +64,9 @@ fn judge(secs: i64, nanos: u32, zone: Option<i32>) -> Result<bool, (String, Stri
                 Timestamp::try_from(dt)
             } else {
                 let Some(fo) = FixedOffset::east_opt(off) else { return Ok(false) };
-                // the local representation must exist
-                let Some(_) = dt.naive_utc().checked_add_signed(chrono::Duration::seconds(off as i64)) else { return Ok(false) };
+                // also when the zone's local reading of the instant lies outside chrono's range (an
+                // instant within |offset| of MIN_UTC / MAX_UTC): the value exists, only its local
+                // rendering does not
                 Timestamp::try_from(dt.with_timezone(&fo))
             }
         }
